@@ -102,7 +102,7 @@ Proof. rewrite add_ok_existsb_l, rej_inter_all by apply consumed_nonempty. refle
 (* ------------------------------------------------------------------ 5 % / cover rule *)
 Lemma rej_miss_low lo h : miss_low nl lo -> rej (Fin lo, h) = true.
 Proof.
-  intros [H0 H1]. unfold rej, range_new_parameter_reject_x, f_extrapolation; cbv zeta. simpl fst. simpl snd.
+  intros [H0 [H1 H2]]. unfold rej, range_new_parameter_reject_x, f_extrapolation; cbv zeta. simpl fst. simpl snd.
   apply orb_true_iff. left. unfold xltb. apply Qltb_true. lra.
 Qed.
 
